@@ -97,7 +97,7 @@ def stepLine (s : DSt) (ws : List String) : DSt × String :=
     if s.dead then (s, "dead") else
     match s.cell, parseOp ws with
     | some c, some op =>
-      if !OpOkB c op then ({ s with dead := true }, "guard-violated") else
+      if !(OpOkB c op && LimOkB c op) then ({ s with dead := true }, "guard-violated") else
       match step c op with
       | .ok c' => ({ s with cell := some c' }, dump c')
       | .error e => ({ s with dead := true }, "abort:" ++ e)
